@@ -186,11 +186,11 @@ def finish(E: Engine):
             try:
                 g = toz(E.truth(E.evs(e, scope)))
             except OutsideSubset as ex:
-                if res is None and c.returns and parse_type(c.returns)[0] != "none":
-                    # the function returns None on this path although the contract promises a value: the path must be infeasible
-                    E.obl.append(Obligation("returns-value%s" % tag, list(x.st.pc), z3.BoolVal(False), x.line, "post"))
-                    break
-                raise ContractStale("ensures %r: %s" % (e, ex))
+                # the value returned on this path does not have the shape the contract speaks about (None, or another rank):
+                # the path must be infeasible under the precondition
+                E.obl.append(Obligation("returns-value%s" % tag, list(x.st.pc), z3.BoolVal(False), x.line, "post",
+                                        extra={"why": "ensures %r: %s" % (e, ex)}))
+                break
             E.obl.append(Obligation("post:%d%s" % (i, tag), list(x.st.pc), g, x.line, "post"))
         for hid, p in entry_ids.items():
             if p in c.modifies:
